@@ -12,6 +12,14 @@ Stages (DESIGN.md 5 "C19"):
   oracle on every REAL trace: the hold does not expire while the client is alive and has not unlocked it (lease continuity
        from the recorded server-side instants, listings, competing TryLocks), no Renew after Unlock/Close returned, no panic,
        holds independent of each other, retry only after Unavailable and at most MaxRetries times, RetryDelaySeconds apart.
+  net  the password dimension (model-independent; Mclient has no notion of credentials): a subset of the cases (the whole
+       corpus, the first cases of every generated family, a family that cancels the client's context) is run twice more on
+       the REAL client.New over a real *grpc.ClientConn (in-memory listener) served by the REAL net/grpc.Run — once without a
+       password (mode net), once with security.SecurityConfig.Password on the server and client.Config.Password in the client
+       (mode netpw). The interposer (here the connection's unary client interceptor; in direct mode the pb.LDLMClient) checks on
+       EVERY RPC the client sends that its context is derived from the context the client was created with and, with a
+       password, that the outgoing metadata carries it. Oracle: the property oracle on both traces; no RPC refused
+       Unauthenticated; and the metamorphic clause: both runs give the same model-visible observations.
   verdict: a failing real run that matches the signature of a `known` entry of known_findings.json -> KNOWN-FINDING;
        any other failing real run -> VIOLATION with the (shrunk) case as replay; a model/implementation difference or a
        broken theorem without a failing real run -> VIOLATION ... no-failing-input-found.
@@ -22,6 +30,7 @@ import json
 import os
 import random
 import re
+import shutil
 import subprocess
 import sys
 import time
@@ -66,7 +75,7 @@ def interval(c, T):
 def case_lines(c):
     if c.get("kind") == "retry":
         return ["R %s %d %s %s" % (c["id"], c["maxretries"], c["rpc"], " ".join(str(x) for x in c["codes"]))]
-    out = ["C %s %d %d" % (c["id"], 1 if c.get("noauto") else 0, c.get("maxretries", 0))]
+    out = ["C %s %d %d%s" % (c["id"], 1 if c.get("noauto") else 0, c.get("maxretries", 0), (" " + c["mode"]) if c.get("mode") else "")]
     for it in c["items"]:
         out.append("I " + " ".join(str(x) for x in it))
     out.append("X")
@@ -324,6 +333,64 @@ def generate(ctx, consts):
     return cases, g.dist
 
 
+NET_QUOTA = {"quick": {"alive": 8, "stop": 10, "multi": 6, "short": 2, "noauto": 2, "refused": 2, "zero": 1, "ustep": 6, "cancel": 6},
+             "thorough": {"alive": 80, "stop": 100, "multi": 60, "short": 10, "noauto": 10, "refused": 10, "zero": 5, "ustep": 60, "cancel": 60}}
+
+
+def family(cid):
+    m = re.match(r"[gn]\d+-([a-z]+)", cid)
+    return m.group(1) if m else "corpus"
+
+
+def cancel_cases(seed, consts, n):
+    """The context the client was created with is cancelled while every renewer sleeps: no Renew may be sent afterwards.
+    (Unlock / Close after the cancellation are not issued: outside the property.) Own PRNG stream derived from the seed, so
+    that the stream of the families compared with the model stays what it was."""
+    r = random.Random(int(seed) * 7919 + 1919)
+    ts = [t for t in TIMEOUTS if t > consts["min_renew"]] or [45]
+    out = []
+    for k in range(n):
+        nh = r.choice([1, 1, 2])
+        items, Ts = [], []
+        for i in range(nh):
+            T = r.choice(ts)
+            Ts.append(T)
+            items.append([r.choice(["lock", "try"]), "ab"[i], T, 1])
+        # an instant that is no renew tick of any hold: whole seconds + 500 ms
+        items.append(["adv", r.choice([0, 1, 2, 3]) * max(1, interval(consts, max(Ts))) * SEC + r.choice([1, 4, 9]) * SEC + 500 * MS])
+        items.append(["probe"])
+        items.append(["cancel"])
+        items.append(["adv", 3 * max(Ts) * SEC])
+        items.append(["probe"])
+        items.append(["compete", "a", 1])
+        out.append({"id": "n%d-cancel" % (k + 1), "noauto": False, "maxretries": 0, "items": items})
+    return out
+
+
+def net_bases(ctx, corpus, generated, consts):
+    """The cases of the password dimension: the corpus, the first cases of every generated family, the cancel family."""
+    quota = dict(NET_QUOTA["quick" if ctx.tier == "quick" else "thorough"])
+    out = [c for c in corpus if c.get("kind") != "retry"]
+    for c in generated:
+        if c.get("kind") == "retry":
+            continue
+        f = family(c["id"])
+        if quota.get(f, 0) > 0:
+            quota[f] -= 1
+            out.append(c)
+    return out + cancel_cases(ctx.seed, consts, quota.get("cancel", 0))
+
+
+def net_variants(bases):
+    out = []
+    for b in bases:
+        for mode, suf in (("net", "~net"), ("netpw", "~pw")):
+            c = {k: v for k, v in b.items() if k not in ("corpus_file",)}
+            c.update(id=b["id"] + suf, mode=mode, base=b["id"])
+            out.append(c)
+    return out
+
+
 def load_corpus():
     out = []
     d = VERIF / "corpus" / "client"
@@ -357,14 +424,45 @@ def build_driver(ctx):
 
 
 def build_harness(ctx):
+    """-> (test binary | None, log). ctx.coverage['ties']['clientdiff_build'] says which gRPC front the net modes got."""
     hdir = vcheck.harness_dir(ctx)
     ov = ctx.work / "overlay.json"
-    ov.write_text(json.dumps({"Replace": {str(REPO / "client" / "verif_client_hooks.go"): str(VERIF / "harness" / "overlay" / "client_verif.go")}}))
+    conn_hook = ctx.work / "client_conn_verif.go"
+    shutil.copy(VERIF / "harness" / "clientdiff" / "client_conn_verif.go.in", conn_hook)
+    base = {str(REPO / "client" / "verif_client_hooks.go"): str(VERIF / "harness" / "overlay" / "client_verif.go"),
+            str(REPO / "client" / "verif_client_conn.go"): str(conn_hook)}
+    # net modes: the server side is the REAL net/grpc.Run; its listener is made injectable in a copy (one substitution)
+    grpc_ov, why = {}, None
+    try:
+        from lib import instrument
+        ins = instrument.instrument(VERIF / "harness" / "clientdiff" / "grpc_anchors.json", ctx.work / "grpcinstr", REPO)
+        if ins["missing"]:
+            why = "net/grpc.Run has no `lis, err := net.Listen(\"tcp\", conf.ListenAddress)` to make injectable: %s" % json.dumps(ins["missing"])[:300]
+        else:
+            grpc_ov = ins["overlay"]
+    except Exception as ex:  # noqa
+        why = "instrumenter failed: %r" % (ex,)
     exe = ctx.work / "clientdiff.test"
-    rc, out = vcheck.go_test_build(ctx, hdir, "./clientdiff", exe, overlay=ov, timeout=900)
-    if rc != 0 or not exe.exists():
-        return None, out[-4000:]
-    return exe, out[-500:]
+    logs = []
+    for use_grpc in (True, False):
+        if use_grpc and not grpc_ov:
+            continue
+        rep = dict(base)
+        if use_grpc:
+            rep.update(grpc_ov)
+        ov.write_text(json.dumps({"Replace": rep}))
+        rc, out = vcheck.go_test_build(ctx, hdir, "./clientdiff", exe, tags="verif clientgrpc" if use_grpc else "verif", overlay=ov, timeout=900)
+        logs.append(out[-3000:])
+        if rc == 0 and exe.exists():
+            if not use_grpc and why is None:
+                why = "the harness does not build against the real grpc.Run of this tree: " + logs[0][-800:]
+            ctx.coverage.setdefault("ties", {})["clientdiff_build"] = {
+                "net_modes_server_side": "the real net/grpc.Run over an in-memory listener (interceptor chain, stats handler)" if use_grpc else
+                                         "DEGRADED: a grpc.Server built by the harness with an equivalent password interceptor (%s)" % why}
+            if not use_grpc:
+                ctx.note("net modes: the real net/grpc.Run could not be used (%s); the harness's own grpc.Server stands in" % (why or "")[:300])
+            return exe, out[-500:]
+    return None, "\n---- next attempt:\n".join(logs)
 
 
 # ---------------------------------------------------------------------------------------------- running
@@ -599,14 +697,21 @@ def analyse(case, r, consts):
     for j, it in enumerate(lockitems):
         holds[j] = Hold(j, it[0], it[1], int(it[2]), int(it[3]))
     close_call = close_ret = None
+    cancel_call = None
     probes, competes = [], []
+    notes = {}               # ("ctx"|"auth"|"refused") -> first (idx, rpc kind, j, at, detail)
     end_t = 0
     for idx, l in enumerate(lines):
         f = l.split()
         if not f:
             continue
         try:
-            if f[0] == "rpc" and f[1] in ("lock", "try"):
+            if f[0] in ("#ctx", "#auth", "#refused"):
+                notes.setdefault(f[0][1:], (idx, f[1], int(f[2]), int(f[3]), f[4] if len(f) > 4 else ""))
+            elif f[0] == "#call" and f[1] == "cancel":
+                cancel_call = (idx, int(f[2]))
+                end_t = max(end_t, int(f[2]))
+            elif f[0] == "rpc" and f[1] in ("lock", "try"):
                 h = holds.get(int(f[2]))
                 if h:
                     h.locked = f[7] == "1"
@@ -667,8 +772,21 @@ def analyse(case, r, consts):
     minr = consts["min_renew"]
 
     def window_end(h):
-        c = [x for x in (h.unl_call, close_call) if x is not None]
+        c = [x for x in (h.unl_call, close_call, cancel_call) if x is not None]
         return min(c) if c else None
+
+    # ---- every RPC on the client's context, with the configured credentials, none refused for lack of them
+    RPCN = {"lock": "Lock", "try": "TryLock", "unlock": "Unlock", "renew": "Renew"}
+    pw = case.get("mode") == "netpw"
+    if "auth" in notes:
+        i, k, j, t, d = notes["auth"]
+        fails.append(dict(kind="auth", j=j, at_idx=i, text="the %s RPC for hold %d at %d ns does not carry the password of client.Config in its outgoing metadata (authorization: %s)" % (RPCN.get(k, k), j, t, d)))
+    if "refused" in notes and pw:
+        i, k, j, t, d = notes["refused"]
+        fails.append(dict(kind="auth", j=j, at_idx=i, text="the %s RPC for hold %d at %d ns was refused Unauthenticated by the server although server and client are configured with the same password" % (RPCN.get(k, k), j, t)))
+    if "ctx" in notes:
+        i, k, j, t, d = notes["ctx"]
+        fails.append(dict(kind="ctx", j=j, at_idx=i, text="the %s RPC for hold %d at %d ns was sent on a context that is not derived from the context the client was created with: metadata attached to that context (the password) is lost and cancelling it does not reach the RPC" % (RPCN.get(k, k), j, t)))
 
     for h in holds.values():
         in_scope = h.locked and auto and h.T > minr
@@ -710,13 +828,13 @@ def analyse(case, r, consts):
                 if last and not any(x["kind"] == "alive" and x["j"] == h.j for x in fails) and lag_ok:
                     fails.append(dict(kind="alive", j=h.j, at_idx=last[0], text="the renewer of hold %d panicked: its Renew failed while the hold was not unlocked" % h.j))
         # ---- stop: nothing of this hold's renewer after Unlock / Close has returned
-        rets = [x for x in (h.uret, close_ret) if x is not None]
+        rets = [x for x in (h.uret, close_ret, cancel_call) if x is not None]
         if rets and auto:
             ri, rt = min(rets)
             late = [(i, t) for (i, t) in h.sent if i > ri]
             if late:
-                fails.append(dict(kind="stop", j=h.j, at_idx=late[0][0], text="a Renew for hold %d (%s) was sent at %d ns, after %s had returned at %d ns" % (
-                    h.j, h.name, late[0][1], "Unlock" if h.uret and (ri, rt) == h.uret else "Close", rt)))
+                fails.append(dict(kind="stop", j=h.j, at_idx=late[0][0], text="a Renew for hold %d (%s) was sent at %d ns, after %s at %d ns" % (
+                    h.j, h.name, late[0][1], "Unlock had returned" if h.uret and (ri, rt) == h.uret else ("the client's context was cancelled" if (ri, rt) == cancel_call else "Close had returned"), rt)))
             else:
                 lateeff = [(i, t) for (i, t, ok) in h.effects if i > ri]
                 if lateeff:
@@ -746,7 +864,7 @@ def analyse(case, r, consts):
                 li, lok = max(evs)
                 if not lok and li > best and (pname is None or h.name == pname):
                     best, culprit = li, h
-        out_of_scope = culprit is not None and auto and 0 < culprit.T <= minr and culprit.unl_call is None and close_call is None
+        out_of_scope = culprit is not None and auto and 0 < culprit.T <= minr and culprit.unl_call is None and close_call is None and cancel_call is None
         if out_of_scope:
             pass   # lock timeout <= MinRenewSeconds with auto-renew: excluded by the property's text
         else:
@@ -883,10 +1001,16 @@ def shrink(ctx, exe, case, still_fails, budget=25):
 
 # --------------------------------------------------------------------------------------------------- run
 
+TRANSPORT = {"direct": "client.NewVerifClient over the interposer as pb.LDLMClient, Service methods called in process",
+             "net": "the real client.New over a real grpc connection (in-memory listener) to the real net/grpc.Run, no password",
+             "netpw": "the real client.New over a real grpc connection (in-memory listener) to the real net/grpc.Run, password set in security.SecurityConfig and client.Config"}
+
+
 def describe(case):
     if case.get("kind") == "retry":
         return "retry %s MaxRetries=%d outcomes=%s" % (case["rpc"], case["maxretries"], case["codes"])
-    return "%s; %s" % ("auto-renew" if not case.get("noauto") else "no auto-renew", " ".join("(" + " ".join(str(x) for x in it) + ")" for it in case["items"]))
+    mode = {"net": "real connection, no password; ", "netpw": "real connection, password configured on server and client; "}.get(case.get("mode"), "")
+    return "%s%s; %s" % (mode, "auto-renew" if not case.get("noauto") else "no auto-renew", " ".join("(" + " ".join(str(x) for x in it) + ")" for it in case["items"]))
 
 
 def evaluate(ctx, cases, real, model, consts):
@@ -929,12 +1053,62 @@ def evaluate(ctx, cases, real, model, consts):
     return out
 
 
+def evaluate_net(bases, real_n, model, consts):
+    """The password dimension. -> (verdicts of the net / netpw runs, stats)"""
+    out = []
+    st = dict(pairs=0, pairs_equal=0, agree_with_model=0, differ_from_model=[], compared_with_model=0, rpcs_checked=0, rpcs_with_password=0)
+    for b in bases:
+        pair = {}
+        for mode, suf in (("net", "~net"), ("netpw", "~pw")):
+            c = dict({k: v for k, v in b.items() if k != "corpus_file"}, id=b["id"] + suf, mode=mode, base=b["id"])
+            r = real_n.get(c["id"])
+            v = dict(case=c, id=c["id"], fails=[], known=[], mismatch=None, ran=r is not None, net=mode)
+            if r is not None:
+                fails, info = analyse(c, r, consts)
+                for f in fails:
+                    k = match_known(f, info)
+                    if k:
+                        v["known"].append((k, f))
+                    else:
+                        v["fails"].append(f)
+                n = sum(1 for l in r["lines"] if l.startswith(("rpc ", "fail ")))
+                st["rpcs_checked"] += n
+                if mode == "netpw":
+                    st["rpcs_with_password"] += n
+            # what the run did wrong first, what the check noticed about its RPCs after
+            v["fails"].sort(key=lambda f: (0 if "refused Unauthenticated" in f["text"] else {"alive": 1, "panic": 2, "stop": 2, "hang": 2, "auth": 3, "ctx": 4}.get(f["kind"], 5)))
+            pair[mode] = (v, r)
+            out.append(v)
+        (vn, rn), (vp, rp) = pair["net"], pair["netpw"]
+        if rn is None or rp is None:
+            continue
+        st["pairs"] += 1
+        d = first_diff(real_projection(rp), real_projection(rn))
+        if d is None:
+            st["pairs_equal"] += 1
+        else:
+            k, a, bb = d
+            vp["fails"].append(dict(kind="metamorphic", j=None, at_idx=k, text="the same scenario with a password configured (server and client.Config) and without one gives different observations, first at line %d: with password '%s' / without '%s'" % (k, a, bb)))
+            vp["twin_trace"] = rn["lines"]
+        # the transport must not matter either: the run over the real connection against the model (as far as the model goes)
+        m = model.get(b["id"])
+        if m is not None and not any(it[0] in ("close", "cancel") for it in b["items"]):
+            st["compared_with_model"] += 1
+            if first_diff(real_projection(rn), project(m["lines"])) is None:
+                st["agree_with_model"] += 1
+            else:
+                st["differ_from_model"].append(b["id"])
+    return out, st
+
+
 def run(ctx):
     cov = ctx.coverage
     ctx.assumptions += [
         "RPC latency is a hypothesis of C19_alive: virtual time is not advanced beyond the slack T - interval(T) while a Renew of the hold is in flight (lag = answer latency of the previous Renew + request latency of this one). The generated cases keep Renews at most 500 ms in flight where the hold must stay alive; the oracle evaluates the alive clause only on runs whose measured lag is below 1 s (the smallest slack of the timeout set under the documented formula).",
-        "grpc-go (connection, transport, keepalive, the real status errors of a broken connection) is not modelled and not run: the client talks to the real gRPC Service methods through an in-process pb.LDLMClient; transport errors are injected status errors; after Close the adapter answers like a closed ClientConn (codes.Canceled).",
-        "client.Lock calls that have to wait are outside Mclient (the model marks the run 'parked'); the generator only issues Lock where capacity is free. Cancellation of the client's context is not exercised.",
+        "grpc-go (connection, transport, keepalive, the real status errors of a broken connection) is not modelled. In the cases compared with the model the client talks to the real gRPC Service methods through an in-process pb.LDLMClient; transport errors are injected status errors; after Close the adapter answers like a closed ClientConn (codes.Canceled). In the password dimension (coverage.ties.clientdiff_net) the real client.New talks over a real *grpc.ClientConn on an in-memory listener (bufconn) to the real net/grpc.Run inside the same bubble; there Close ends the connection, and with it the session and its holds (observations after Close are compared between the two runs of the pair, not with the model).",
+        "the password dimension is model-independent (Mclient has no notion of credentials): with a password configured on server and client no RPC may be refused Unauthenticated, every RPC must carry it, and the run must give the same model-visible observations as the run of the same scenario without a password. It is run on a subset (the corpus, the first cases of every family, quota in coverage.ties.clientdiff_net.rule). The password is printable ASCII (gRPC metadata cannot carry anything else: a Config.Password with other characters makes every RPC fail on the client side with an Internal error, which is outside C19).",
+        "'the RPC context is derived from the client's context' is checked by a marker value in the context the client is created with: every RPC's context must show it. A client that rebuilt an equivalent context from context.Background() (copying metadata, wiring cancellation by hand) would be reported although it behaves the same.",
+        "client.Lock calls that have to wait are outside Mclient (the model marks the run 'parked'); the generator only issues Lock where capacity is free. Cancellation of the client's context is exercised only while every renewer sleeps, and without Unlock / Close afterwards (family cancel, password dimension only, judged by the oracle alone: no Renew after the cancellation); a cancellation that meets a Renew in flight, and Unlock / Close after a cancellation (renewer.Stop on a renewer that has already ended), are outside the property's text and not run.",
         "the interposer keeps a Renew 'in flight' before or after the server; the instant between the timer firing and the goroutine entering the RPC is not separately schedulable under testing/synctest and is identified with 'before the server' (in both the goroutine has left the select, which is what Stop()'s non-blocking send depends on).",
         "Mclient runs over Mseq (validated separately by the seq-diff tie); same-instant Renews of different holds are compared up to order.",
         "holds with 0 < T <= MinRenewSeconds and auto-renew are excluded by the property's text (the client panics at the first tick by construction: interval_small); such cases are run for the model/implementation comparison only.",
@@ -990,6 +1164,21 @@ def run(ctx):
     verdicts = evaluate(ctx, corpus, real_c, model_c, consts) + evaluate(ctx, generated, real_g, model_g, consts)
     ctx.note("ran %d corpus + %d generated cases on the real client in %.1fs" % (len(corpus), len(generated), time.time() - t_real))
 
+    # ---- the password dimension (real client.New, real connection, real net/grpc.Run; with and without a password)
+    t_net = time.time()
+    nbases = net_bases(ctx, corpus, generated, gen_consts)
+    ncases = net_variants(nbases)
+    real_n = run_real(ctx, exe, ncases, "net", per_batch_timeout=240 if quick else 900) if exe is not None else {}
+    model_b = dict(model_c)
+    model_b.update(model_g)
+    net_verdicts, nst = evaluate_net(nbases, real_n, model_b, consts)
+    verdicts_direct = verdicts
+    verdicts = verdicts + net_verdicts
+    real_c = dict(real_c)
+    real_c.update(real_n)           # the lookups below find every real trace by its id
+    ctx.note("password dimension: %d scenarios x {no password, password} on the real client.New over net/grpc in %.1fs: %d pairs, %d with equal observations" % (
+        len(nbases), time.time() - t_net, nst["pairs"], nst["pairs_equal"]))
+
     # ---- known findings / violations
     known_first = {}
     known_counts = {}
@@ -1014,6 +1203,7 @@ def run(ctx):
         ctx.known_finding(fid, text)
 
     failing = [v for v in verdicts if v["fails"]]
+    failing.sort(key=lambda v: 0 if v.get("net") == "netpw" else 1)      # stable: the runs with a password first
     reported = 0
 
     def refails(kind):
@@ -1029,7 +1219,7 @@ def run(ctx):
     seen_kinds = set()
     for v in failing:
         f = v["fails"][0]
-        key = (f["kind"], v["case"].get("kind") == "retry")
+        key = (f["kind"], v["case"].get("kind") == "retry", v.get("net"))
         if key in seen_kinds and reported >= 2:
             continue
         if reported >= 5:
@@ -1038,16 +1228,20 @@ def run(ctx):
         reported += 1
         case = v["case"]
         shr = None
-        if exe is not None and case.get("kind") != "retry":
+        if exe is not None and case.get("kind") != "retry" and f["kind"] != "metamorphic":
             try:
                 shr = shrink(ctx, exe, case, refails(f["kind"]))
             except Exception:  # noqa
                 shr = None
         r = (real_c.get(v["id"]) or real_g.get(v["id"]) or {})
         m = (model_c.get(v["id"]) or model_g.get(v["id"]) or {})
+        if v.get("net"):
+            m = {}
         ctx.violation({"property": "C19", "kind": "failing-real-run", "clause": f["kind"], "what": f["text"], "all_failures": [x["text"] for x in v["fails"]][:6],
                        "case": {k: case[k] for k in case if k not in ("corpus_file",)}, "shrunk_case": shr, "seed": ctx.seed,
+                       "transport": TRANSPORT.get(case.get("mode") or "direct"),
                        "real_trace": r.get("lines", [])[:400], "real_crash": r.get("crash"), "model_trace": m.get("lines", [])[:400],
+                       "same_scenario_without_password_trace": (v.get("twin_trace") or (real_c.get(case.get("base", "") + "~net") or {}).get("lines") or [])[:400] if case.get("mode") == "netpw" else None,
                        "replay_cmd": "bin/check C19 --replay <this file>"},
                       "real client run violates C19 (%s): %s   [case %s: %s]" % (f["kind"], f["text"], v["id"], describe(shr or case)[:300]),
                       name="failing_%s.json" % re.sub(r"[^A-Za-z0-9_.-]", "_", v["id"]))
@@ -1081,8 +1275,25 @@ def run(ctx):
                           name="broken_theorem.json", no_failing_input=True)
 
     # ---- coverage
-    sched = [v for v in verdicts if v["case"].get("kind") != "retry"]
-    retr = [v for v in verdicts if v["case"].get("kind") == "retry"]
+    sched = [v for v in verdicts_direct if v["case"].get("kind") != "retry"]
+    retr = [v for v in verdicts_direct if v["case"].get("kind") == "retry"]
+    fams = {}
+    for b in nbases:
+        fams[family(b["id"])] = fams.get(family(b["id"]), 0) + 1
+    ncr = {}
+    for v in net_verdicts:
+        r = real_n.get(v["id"]) or {}
+        if r.get("crash"):
+            ncr[r["crash"][0]] = ncr.get(r["crash"][0], 0) + 1
+    cov["ties"]["clientdiff_net"] = {
+        "scenarios": len(nbases), "by_family": fams, "runs_on_real_client": sum(1 for v in net_verdicts if v["ran"]), "not_run": sum(1 for v in net_verdicts if not v["ran"]),
+        "pairs_with_and_without_password": nst["pairs"], "pairs_with_equal_observations": nst["pairs_equal"],
+        "rpcs_whose_context_and_metadata_were_checked": nst["rpcs_checked"], "of_which_with_a_password_configured": nst["rpcs_with_password"],
+        "runs_without_password_compared_with_model": nst["compared_with_model"], "agreeing_with_model": nst["agree_with_model"], "differing_from_model": nst["differ_from_model"][:10],
+        "runs_failing_property_oracle": sum(1 for v in net_verdicts if v["fails"]), "runs_matching_known_signature": sum(1 for v in net_verdicts if v["known"]),
+        "child_process_crashes_by_panic": ncr,
+        "rule": "corpus/client/*.json + the first cases of every generated family (quota %s) + a family that cancels the client's context while the renewers sleep; each scenario twice: no password / password on server and in client.Config" % json.dumps(NET_QUOTA["quick" if quick else "thorough"]),
+    }
     def shape(c):
         return (bool(c.get("noauto")), tuple((it[0],) + tuple(it[1:]) if it[0] in ("lock", "try", "hold") else (it[0],) for it in c["items"]))
     nontrivial = set()
@@ -1157,20 +1368,38 @@ def do_replay(ctx, exe, drv, consts, blog):
         print("the harness does not build against this tree:\n" + (blog or "")[-1500:])
         ctx.violation({"broken": "build", "compiler_output": blog}, "replay could not run: the tree does not compile against the harness", name="replay_build_failed.json", no_failing_input=True)
         return
-    real = run_real(ctx, exe, [case], "replay", per_batch_timeout=120)
-    model = {}
-    if drv is not None:
-        model, _, _ = run_model(ctx, drv, [case], "replay")
-    rr = real.get("replay") or {"lines": []}
-    print("---- real client trace")
-    for l in rr["lines"]:
-        print("  " + l)
-    if rr.get("crash"):
-        print("  ** process died: %s" % (rr["crash"],))
-    print("---- model trace")
-    for l in (model.get("replay") or {}).get("lines", []):
-        print("  " + l)
-    v = evaluate(ctx, [case], real, model, consts)[0]
+    if case.get("mode") in ("net", "netpw"):
+        # a scenario of the password dimension: both runs of the pair, the property oracle on each, the metamorphic clause
+        base = {k: v for k, v in case.items() if k not in ("mode", "base")}
+        real = run_real(ctx, exe, net_variants([base]), "replay", per_batch_timeout=120)
+        vs, nst = evaluate_net([base], real, {}, consts)
+        for v in vs:
+            r = real.get(v["id"]) or {"lines": []}
+            print("---- real client trace, %s" % TRANSPORT[v["net"]])
+            for l in r["lines"]:
+                print("  " + l)
+            if r.get("crash"):
+                print("  ** process died: %s" % (r["crash"],))
+        v = next(x for x in vs if x["net"] == case["mode"])
+        rr = real.get(v["id"]) or {"lines": []}
+        if case["mode"] == "net":
+            other = next(x for x in vs if x["net"] == "netpw")
+            v["fails"] += [f for f in other["fails"] if f["kind"] == "metamorphic"]
+    else:
+        real = run_real(ctx, exe, [case], "replay", per_batch_timeout=120)
+        model = {}
+        if drv is not None:
+            model, _, _ = run_model(ctx, drv, [case], "replay")
+        rr = real.get("replay") or {"lines": []}
+        print("---- real client trace")
+        for l in rr["lines"]:
+            print("  " + l)
+        if rr.get("crash"):
+            print("  ** process died: %s" % (rr["crash"],))
+        print("---- model trace")
+        for l in (model.get("replay") or {}).get("lines", []):
+            print("  " + l)
+        v = evaluate(ctx, [case], real, model, consts)[0]
     for k, f in v["known"]:
         print("known finding %s: %s" % (k, f["text"]))
         ent = ctx.finding_by_id(k)
@@ -1186,7 +1415,8 @@ def do_replay(ctx, exe, drv, consts, blog):
         ctx.violation({"property": "C19", "kind": "failing-real-run", "what": v["fails"][0]["text"], "case": case, "real_trace": rr["lines"][:400], "real_crash": rr.get("crash")},
                       "replayed case violates C19: " + v["fails"][0]["text"], name="replayed.json")
     elif not v["known"] and v["mismatch"] is None:
-        print("the replayed case satisfies C19 on this tree and agrees with the model")
+        print("the replayed scenario satisfies C19 on this tree with and without a password, with equal observations" if case.get("mode") in ("net", "netpw")
+              else "the replayed case satisfies C19 on this tree and agrees with the model")
     ctx.coverage["samples"] = [{"replayed": describe(case)[:400], "real_trace_head": rr["lines"][:12]}]
     ctx.coverage["evaluations"] = 1
     ctx.coverage["distinct_nontrivial"] = 1
